@@ -15,6 +15,17 @@ INSTALLED = ["xraylib.h", "xraylib-lines.h", "xraylib-shells.h", "xraylib-parser
              "xraylib-radionuclides.h", "xraylib-error.h", "xraylib-deprecated.h", "xraylib-aux.h"]
 
 
+def installed(repo):
+    """the public headers as include/meson.build installs them (a header added to or removed from the installation is followed);
+    the list of the pinned tree if that file cannot be read as expected"""
+    try:
+        listed = re.findall(r"'([\w\-.+]+\.h)'", open(os.path.join(repo, "include", "meson.build")).read())
+        listed = [h for h in dict.fromkeys(listed) if os.path.exists(os.path.join(repo, "include", h))]
+        return listed if len(listed) >= 6 and "xraylib.h" in listed else list(INSTALLED)
+    except OSError:
+        return list(INSTALLED)
+
+
 def dump(obj, path):
     os.makedirs(os.path.dirname(path), exist_ok=True)
     with open(path, "w") as f:
@@ -30,8 +41,7 @@ def strip_comments(s):
 def lex_macros(repo, out):
     """#define NAME token(s) of the installed public headers (textual), then cpp-style alias expansion."""
     inc = os.path.join(repo, "include")
-    listed = re.findall(r"'([\w\-.]+\.h)'", open(os.path.join(inc, "meson.build")).read())
-    assert sorted(listed) == sorted(INSTALLED), ("installed header list changed", listed)
+    listed = installed(repo)
     raw = {}
     where = {}
     for h in listed:
